@@ -579,7 +579,13 @@ def shrink_candidates(spec: dict):
 
 
 def spec_size(spec: dict) -> int:
-    return len(canon(spec))
+    """Complexity measure for shrinking: JSON length plus penalties for every non-default knob."""
+    n = len(canon(spec))
+    n += 30 * (spec["entry"] != "parproc") + 30 * (spec["pool"] != "process") + 20 * bool(spec["pickle"])
+    n += 20 * (spec["pickable"] != "identity") + 10 * bool(spec["summary"]) + 10 * bool(spec["verbose"])
+    n += 10 * spec["knobs"]["tick_max"] + 15 * (spec["max_workers"] or 0) + 5 * spec["cpu_count"]
+    n += 10 * sum(1 for p in spec["payloads"] if p["cls"] == "visual")
+    return n
 
 
 COMPONENTS = {
